@@ -159,7 +159,7 @@ def cases(ctx):
     out = []
     junk = ['', 'PROGRAM p END_PROGRAM', 'x ? y', '(* never closed', 'VAR a : INT; END_VAR']
     for t, feats in docs:
-        shape = rng.choice(['direct', 'edited', 'other-doc', 'reopened', 'multi-change'])
+        shape = rng.choice(['direct', 'edited', 'other-doc', 'reopened', 'multi-change', 'asked-before'])
         h = []
         ver = 1
         if shape == 'direct':
@@ -176,12 +176,27 @@ def cases(ctx):
         elif shape == 'reopened':
             h.append(('open', 'f0', 1, rng.choice(junk)))
             h.append(('open', 'f0', 5, t))
+        elif shape == 'asked-before':
+            # earlier versions of the document were highlighted too: the answer is about the current text only
+            h.append(('open', 'f0', ver, rng.choice(junk + [d[0] for d in docs[:8]])))
+            h.append(('semtok', 3, 'f0'))
+            if rng.random() < 0.5:
+                ver += 1; h.append(('change', 'f0', ver, [rng.choice(junk)])); h.append(('semtok', 4, 'f0'))
+            ver += 1; h.append(('change', 'f0', ver, [t]))
         else:
             h.append(('open', 'f0', 1, rng.choice(junk)))
             h.append(('change', 'f0', 2, [rng.choice(junk), t]))
         h.append(('semtok', 7, 'f0'))
         h += [('shutdown', 99), ('exit',)]
         out.append({'text': t, 'history': h, 'feats': feats | {shape}})
+    # directed: a highlighted valid version followed by a version with a lexical error (and the other way round)
+    valid = [d[0] for d in docs[:6]] + ['PROGRAM p\nVAR a : INT; END_VAR\na := 1;\nEND_PROGRAM\n']
+    broken = ['x ? y', 'PROGRAM p\nVAR a : INT; END_VAR\na := 1 ? 2;\nEND_PROGRAM\n', "s := 'never closed", '(* never closed']
+    for v in valid:
+        for b in broken:
+            for first, last in ((v, b), (b, v)):
+                h = [('open', 'f0', 1, first), ('semtok', 3, 'f0'), ('change', 'f0', 2, [last]), ('semtok', 7, 'f0'), ('shutdown', 99), ('exit',)]
+                out.append({'text': last, 'history': h, 'feats': frozenset(['asked-before-directed'])})
     return out
 
 
